@@ -16,6 +16,11 @@ Programs are core-style (gen/core.py: lines 1/2/3) extended with
                        scalars 0 int64 1 double 2 bool.  Flag 2 of the plan: noise variants are requested first.
   11 k sparse          (main, with a companion) k chained companion runs: run j+1's builder GlobalState is a copy of run
                        j's FINAL GlobalState (copy-back flow); recorder layout sparse (time, delta) or dense
+  12 n builds seed     (main) a WIRING-built program (Wiring::finish ranks it): n rank-independent sources each feeding its own
+                       sink, built and run `builds` times with heap perturbation (seed) and other wirings built in between
+  13 variant           (main) GlobalContext phase: thread A selects a GlobalContext {700: 7, 701: 70}, builds the main program
+                       inside it and is parked in its first user-code evaluation while thread B builds and runs the same
+                       program with no context (variant 0) or inside its own context {710: 8} (variant 1)
   9 R F T sleep flags  plan: R repetitions from ONE builder, F from fresh builders, T threads, seed of the
                        pseudo-random sleeps in node code (0 = none); flags  1 noise runs between repetitions,
                        2 all reuse executors built before any runs, 4 threads build their own executors,
@@ -35,7 +40,10 @@ Companion runs print  30 t x acc (child node)  31 t v count (sink)  32 idx 1 v (
                         on a second request   51 cycle size period min_period valid all_valid (contents)* (run-time probe of
                         a top-level TSW[int64])
   44 k sparse           chained companion run k:  30 / 31 lines,  32 idx 1 v (dense) | 34 cycle v (sparse),  33 entries
-The Coq model does not cover sections 43 / 44 (`agree` strips them); the oracle states them from a Python reference.
+  45 b 0                build b of the wiring program:  60 ids in evaluation (= compiled node) order   61 node_count sum
+  46 who variant        GlobalContext phase, thread who (0 = A, 1 = B): the run's lines, then  47 who  and the context's
+                        GlobalState after everything (24 / 25 lines)
+The Coq model does not cover sections 43 / 44 / 45 / 46 (`agree` strips them); the oracle states them from a Python reference.
 Other:  99 a callback ran inside a run of another program;  18 build / thread error.
 """
 import random
@@ -46,7 +54,7 @@ NAME = "repro"
 DRIVER_SRCS = ["repro_driver.cpp"]
 MODEL_FAMILY = "repro"
 MODE = "diff"
-BUDGET = {"quick": 140, "thorough": 6000}
+BUDGET = {"quick": 140, "thorough": 16000}
 
 MAIN_KEYS = [0, 1, 2, 3, 4, 5]
 NOISE_KEYS = [100, 101, 102, 103]
@@ -167,7 +175,7 @@ def _valid_spec(spec):
 
 
 def _small_core(rng, tier, prop):
-    c = core.no_refusal(core.gen(rng, "quick", prop))
+    c = core.no_lists(core.no_refusal(core.gen(rng, "quick", prop)))
     # keep noise programs short
     for l in c:
         if l[0] == 1:
@@ -177,7 +185,7 @@ def _small_core(rng, tier, prop):
 
 def gen(rng, tier, prop):
     quick = tier == "quick"
-    main = core.no_refusal(core.gen(rng, "quick" if quick or rng.random() < 0.7 else "thorough", "C07"))
+    main = core.no_lists(core.no_refusal(core.gen(rng, "quick" if quick or rng.random() < 0.7 else "thorough", "C07")))
     main += _extras(rng, main, MAIN_KEYS, NOISE_KEYS)
     if rng.random() < (0.4 if quick else 0.5):
         start, end = main[0][1], main[0][2]
@@ -200,6 +208,10 @@ def gen(rng, tier, prop):
     has_comp = any(l[0] == 7 for l in main)
     if has_comp and rng.random() < 0.8:
         main.append([11, rng.randint(2, 3), 1 if rng.random() < 0.7 else 0])
+    if rng.random() < 0.5:
+        main.append([12, rng.randint(8, 16), rng.randint(3, 5), rng.randint(1, 10 ** 6)])
+    if rng.random() < 0.4:
+        main.append([13, rng.choice([0, 0, 1])])
     specs = [_rand_spec(rng) for _ in range(rng.choice([0, 1, 2, 2, 3]))]
     for sp in specs:
         main.append([10] + sp)
@@ -270,6 +282,12 @@ def expected_headers(case):
     if pl["flags"] & 2:
         order.reverse()
     tail += [[43, sct, 0] for sct in order if any(l[0] == 10 and len(l) >= 3 for l in secs[sct])]
+    wl = next((l for l in secs[0] if l[0] == 12 and len(l) >= 4), None)
+    if wl and wl[1] > 0 and wl[2] > 0:
+        tail += [[45, b, 0] for b in range(wl[2])]
+    cv = next((l[1] for l in secs[0] if l[0] == 13 and len(l) >= 2), -1)
+    if cv >= 0:
+        tail += [[46, 0, cv], [46, 1, cv]]
     hdr, rep, n, crep = [], 0, 0, 0
     for k, a in evs:
         if k == "M":
@@ -285,7 +303,7 @@ def units(out):
     """Split an observation into runs: [(header, lines)]."""
     us = []
     for l in out:
-        if l and l[0] in (40, 41, 42, 43, 44) and len(l) == 3:
+        if l and l[0] in (40, 41, 42, 43, 44, 45, 46) and len(l) == 3:
             us.append((l, []))
         elif us:
             us[-1][1].append(l)
@@ -470,12 +488,64 @@ def _check_schemas(tag, sct, sec, lines, fails):
         fails.append(("plan_shape", "%s: %d lines, expected %d" % (tag, len(lines), pos)))
 
 
+CTX_KEYS = {0: {700: 7, 701: 70}, 1: {710: 8}}
+
+
+def _check_wiring(tag, sec, lines, ref, fails):
+    wl = next((l for l in sec if l[0] == 12 and len(l) >= 4), None)
+    n = wl[1] if wl else 0
+    if any(l[0] in (18, 19, 99) for l in lines):
+        fails.append(("unexpected_error", "%s failed (%s)" % (tag, lines[:2])))
+        return
+    order = next((l[1:] for l in lines if l[0] == 60), None)
+    tot = next((l[1:] for l in lines if l[0] == 61), None)
+    ids = sorted(list(range(1, n + 1)) + [100 + i for i in range(1, n + 1)])
+    if order is None or sorted(order) != ids or tot != [2 * n, n * (n + 1) // 2]:
+        fails.append(("wiring_run_wrong", "%s: evaluation order %s, totals %s; expected a permutation of %d sources and their sinks, totals %s"
+                      % (tag, order, tot, n, [2 * n, n * (n + 1) // 2])))
+    elif any(order.index(100 + i) < order.index(i) for i in range(1, n + 1)):
+        fails.append(("wiring_run_wrong", "%s: a sink is ranked before its source: %s" % (tag, order)))
+    if ref is not None and lines != ref:
+        fails.append(("build_order_varies", "%s: compiled node / evaluation order %s differs from the first build of the SAME wiring %s"
+                      % (tag, order, next((l[1:] for l in ref if l[0] == 60), None))))
+
+
+def _check_context(tag, who, variant, lines, rep0, fails):
+    """A run made while ANOTHER thread holds a GlobalContext: its trace is the solo trace, its GlobalState the solo one plus the
+    keys of the context selected on ITS OWN thread (none for B in variant 0); the contexts keep exactly their own keys."""
+    cut = next((i for i, l in enumerate(lines) if l[0] == 47 and len(l) == 2), len(lines))
+    run, after = lines[:cut], lines[cut + 1:]
+    own = dict(CTX_KEYS[0]) if who == 0 else (dict(CTX_KEYS[1]) if variant == 1 else {})
+    other = CTX_KEYS[1] if who == 0 else CTX_KEYS[0]
+    if any(l[0] == 18 for l in run):
+        fails.append(("foreign_state_visible", "%s: build / run failed (a GlobalContext selected on another thread got in the way?)" % tag))
+        return
+    if rep0 is None:
+        return
+    body = [l for l in run if l[0] not in (24, 25)]
+    body0 = [l for l in rep0 if l[0] not in (24, 25)]
+    if body != body0:
+        fails.append(("rep_differs", "%s differs from the solo run of the same program: %s" % (tag, _first_diff(body0, body))))
+    exp = dict((l[1], l[2]) for l in rep0 if l[0] == 24)
+    exp.update(own)
+    dump = [(l[1], l[2]) for l in run if l[0] == 24]
+    if dump != sorted(exp.items()):
+        kind = "foreign_state_visible" if any(k in other for k, _ in dump) else "gs_keys"
+        fails.append((kind, "%s: GlobalState after the run is %s; the solo run + the context selected on this thread imply %s"
+                      % (tag, dump, sorted(exp.items()))))
+    exp_after = CTX_KEYS[0] if who == 0 else CTX_KEYS[1]
+    got_after = [(l[1], l[2]) for l in after if l[0] == 24]
+    if got_after != sorted(exp_after.items()):
+        fails.append(("foreign_state_visible", "%s: the context's own GlobalState holds %s afterwards; it was given %s"
+                      % (tag, got_after, sorted(exp_after.items()))))
+
+
 def strip_unmodelled(out):
     """The observation without the sections the Coq model does not cover (43 schema probes, 44 chained runs)."""
     res, keep = [], True
     for l in out:
-        if l and len(l) == 3 and l[0] in (40, 41, 42, 43, 44):
-            keep = l[0] not in (43, 44)
+        if l and len(l) == 3 and l[0] in (40, 41, 42, 43, 44, 45, 46):
+            keep = l[0] not in (43, 44, 45, 46)
         if keep:
             res.append(l)
     return res
@@ -504,6 +574,14 @@ def oracle(prop, case, out):
         if h[0] == 43:
             if 0 <= h[1] < len(secs):
                 _check_schemas("schema requests of section %d" % h[1], h[1], secs[h[1]], lines, fails)
+            continue
+        if h[0] == 45:
+            _check_wiring("wiring program build %d" % h[1], secs[0], lines, first.get(("W",)), fails)
+            first.setdefault(("W",), lines)
+            continue
+        if h[0] == 46:
+            _check_context("run on thread %s while another thread holds a GlobalContext (variant %d)" % ("AB"[h[1] & 1], h[2]),
+                           h[1], h[2], lines, first.get(("M",)), fails)
             continue
         if h[0] == 44:
             carried = _check_chain("chained companion run %d (%s)" % (h[1], "sparse" if h[2] else "dense"), secs[0], lines, h[2], carried, fails)
@@ -540,7 +618,8 @@ def oracle(prop, case, out):
 PROP_KINDS = {
     "C07": {"rep_differs", "noise_rep_differs", "comp_rep_differs", "plan_shape", "callback_cross_run", "build_error",
             "unexpected_error", "state_leak", "child_state_leak", "gs_counter", "gs_foreign_read", "gs_foreign_key",
-            "gs_keys", "record_leak", "schema_confused", "window_trace"},
+            "gs_keys", "record_leak", "schema_confused", "window_trace",
+            "build_order_varies", "wiring_run_wrong", "foreign_state_visible"},
 }
 
 
@@ -565,6 +644,7 @@ def stats(case, out):
           "companion_cases": int(any(l[0] == 7 for l in secs[0])),
           "seed_keys": sum(1 for l in secs[0] if l[0] == 6), "gs_ops_declared": sum(1 for l in secs[0] if l[0] == 4),
           "state_nodes": sum(1 for l in secs[0] if l[0] == 5),
+          "wiring_cases": int(any(l[0] == 12 for l in secs[0])), "context_cases": int(any(l[0] == 13 for l in secs[0])),
           "schema_requests": sum(1 for sec in secs for l in sec if l[0] == 10),
           "tsw_specs": sum(1 for sec in secs for l in sec if l[0] == 10 and len(l) > 1 and l[1] == 4),
           "chained_cases_sparse": int(any(l[0] == 11 and l[2] for l in secs[0]) and any(l[0] == 7 for l in secs[0])),
@@ -582,6 +662,8 @@ def stats(case, out):
         st["gs_erases_rep0"] = sum(1 for l in m0 if l[0] == 22)
         st["state_updates_rep0"] = sum(1 for l in m0 if l[0] == 23)
         st["error_runs_rep0"] = sum(1 for l in m0 if l[0] == 19)
+        st["wiring_builds"] = sum(1 for u in us if u[0][0] == 45)
+        st["context_runs"] = sum(1 for u in us if u[0][0] == 46)
         st["chained_runs"] = sum(1 for u in us if u[0][0] == 44)
         st["window_probe_cycles"] = sum(1 for u in us if u[0][0] == 43 for l in u[1] if l[0] == 51)
         st["recorded_ticks"] = sum(1 for u in us[:] if u[0][0] == 42 for l in u[1] if l[0] == 32)
@@ -619,7 +701,7 @@ def shrink(case):
             yield build(main, noises, p2)
     # drop extension lines / companion of the main program, then of the noise programs
     for k, l in enumerate(main):
-        if l[0] in (4, 5, 6, 7, 10, 11):
+        if l[0] in (4, 5, 6, 7, 10, 11, 12, 13):
             yield build(main[:k] + main[k + 1:], noises, plan_line)
     for j, nz in enumerate(noises):
         for k, l in enumerate(nz):
@@ -627,10 +709,10 @@ def shrink(case):
                 yield build(main, noises[:j] + [nz[:k] + nz[k + 1:]] + noises[j + 1:], plan_line)
     # core shrinking of the main program (scripts, last node, window) keeping the extension lines that stay valid
     core_part = [l for l in main if l[0] in (1, 2, 3)]
-    ext = [l for l in main if l[0] in (4, 5, 6, 7, 10, 11)]
+    ext = [l for l in main if l[0] in (4, 5, 6, 7, 10, 11, 12, 13)]
     for c2 in core.shrink(core_part):
         nn = sum(1 for l in c2 if l[0] == 2)
-        yield build(c2 + [l for l in ext if l[0] in (6, 7, 10, 11) or l[1] < nn], noises, plan_line)
+        yield build(c2 + [l for l in ext if l[0] in (6, 7, 10, 11, 12, 13) or l[1] < nn], noises, plan_line)
     for j, nz in enumerate(noises):
         core_part = [l for l in nz if l[0] in (1, 2, 3)]
         ext = [l for l in nz if l[0] in (4, 5, 6, 10)]
